@@ -102,6 +102,8 @@ type Project struct {
 	Filler       *Day   `json:"-"`                // record used to pad a year file back to 1 January (layout 1)
 	Automan      string `json:"automan,omitempty"` // full text of automan.txt ("" = shipped example)
 	DailyCols    string `json:"-"`                 // yaml text of dailyout_conf.yml ("" = minimal)
+	YearlyCols   string `json:"-"`                 // yaml text of yearlyout_conf.yml ("" = minimal)
+	CropCols     string `json:"-"`                 // yaml text of cropout_conf.yml ("" = minimal)
 	Files        map[string]string `json:"-"`      // extra/override files relative to the project dir
 }
 
@@ -446,8 +448,15 @@ func (p *Project) Write(root string) {
 		daily = minimalDaily
 	}
 	w("dailyout_conf.yml", daily)
-	w("yearlyout_conf.yml", minimalYearly)
-	w("cropout_conf.yml", minimalCrop)
+	yearly, crop := p.YearlyCols, p.CropCols
+	if yearly == "" {
+		yearly = minimalYearly
+	}
+	if crop == "" {
+		crop = minimalCrop
+	}
+	w("yearlyout_conf.yml", yearly)
+	w("cropout_conf.yml", crop)
 	w("managementout_conf.yml", allManagement)
 	for name, content := range p.Files {
 		must(os.MkdirAll(filepath.Dir(filepath.Join(pd, name)), 0o755))
